@@ -55,7 +55,13 @@ func shortStr(r *rng.R) string {
 // that are built here, outside the measured closure.
 var allocFreeNames = []string{"Str", "Strs", "Bytes", "Hex", "Bool", "Bools", "Int", "Ints", "Int8", "Ints8", "Int16", "Ints16", "Int32", "Ints32", "Int64", "Ints64",
 	"Uint", "Uints", "Uint8", "Uints8", "Uint16", "Uints16", "Uint32", "Uints32", "Uint64", "Uints64", "Float32", "Floats32", "Float64", "Floats64",
-	"Time", "Times", "Dur", "Durs", "TimeDiff", "Timestamp", "Err", "AnErr", "Dict", "Array", "Array+Dict", "Object", "RawJSON", "Type", "Func"}
+	"Time", "Times", "Dur", "Durs", "TimeDiff", "Timestamp", "Err", "AnErr", "Dict", "Array", "Array+Dict", "Object", "RawJSON", "Type", "Func",
+	// the same methods with arguments that live in the CALLER's frame (slice literals, slices of local arrays, a
+	// short string conversion, a struct boxed for Type): a field method whose parameter starts to escape makes
+	// the caller allocate although the method itself does not (added after seeded change c07-agent3)
+	"Strs/stack", "Bytes/stack", "Hex/stack", "Bools/stack", "Ints/stack", "Ints8/stack", "Ints16/stack", "Ints32/stack", "Ints64/stack",
+	"Uints/stack", "Uints8/stack", "Uints16/stack", "Uints32/stack", "Uints64/stack", "Floats32/stack", "Floats64/stack", "Times/stack", "Durs/stack",
+	"Str/stack", "RawJSON/stack", "Type/stack", "Dict/stack", "Array/stack"}
 
 func mkStep(name string, r *rng.R) step {
 	k := "k" + string(rune('a'+r.Intn(26)))
@@ -202,6 +208,74 @@ func mkStep(name string, r *rng.R) step {
 		return step{name, 40, func(e *zerolog.Event) *zerolog.Event { return e.Type(k, v) }}
 	case "Func":
 		return step{name, 30, func(e *zerolog.Event) *zerolog.Event { return e.Func(staticFunc) }}
+	case "Strs/stack":
+		return step{name, 20 + (len(s)+len(s2))*6, func(e *zerolog.Event) *zerolog.Event { return e.Strs(k, []string{s, s2}) }}
+	case "Bytes/stack":
+		return step{name, 12 + 16*6, func(e *zerolog.Event) *zerolog.Event {
+			var a [16]byte
+			a[0], a[5], a[15] = byte(i64), byte(u64), '"'
+			return e.Bytes(k, a[:])
+		}}
+	case "Hex/stack":
+		return step{name, 12 + 16*2, func(e *zerolog.Event) *zerolog.Event {
+			var a [16]byte
+			a[0], a[5], a[15] = byte(i64), byte(u64), 0xff
+			return e.Hex(k, a[:])
+		}}
+	case "Bools/stack":
+		v := r.Bool()
+		return step{name, 30, func(e *zerolog.Event) *zerolog.Event { return e.Bools(k, []bool{true, v, false}) }}
+	case "Ints/stack":
+		return step{name, 60, func(e *zerolog.Event) *zerolog.Event { return e.Ints(k, []int{int(i64), 0, -1}) }}
+	case "Ints8/stack":
+		return step{name, 20, func(e *zerolog.Event) *zerolog.Event { return e.Ints8(k, []int8{int8(i64), 1}) }}
+	case "Ints16/stack":
+		return step{name, 24, func(e *zerolog.Event) *zerolog.Event { return e.Ints16(k, []int16{int16(i64), 1}) }}
+	case "Ints32/stack":
+		return step{name, 30, func(e *zerolog.Event) *zerolog.Event { return e.Ints32(k, []int32{int32(i64), 1}) }}
+	case "Ints64/stack":
+		return step{name, 50, func(e *zerolog.Event) *zerolog.Event { return e.Ints64(k, []int64{i64, -i64}) }}
+	case "Uints/stack":
+		return step{name, 36, func(e *zerolog.Event) *zerolog.Event { return e.Uints(k, []uint{uint(u64), 1}) }}
+	case "Uints8/stack":
+		return step{name, 20, func(e *zerolog.Event) *zerolog.Event { return e.Uints8(k, []uint8{uint8(u64), 1}) }}
+	case "Uints16/stack":
+		return step{name, 24, func(e *zerolog.Event) *zerolog.Event { return e.Uints16(k, []uint16{uint16(u64), 1}) }}
+	case "Uints32/stack":
+		return step{name, 30, func(e *zerolog.Event) *zerolog.Event { return e.Uints32(k, []uint32{uint32(u64), 1}) }}
+	case "Uints64/stack":
+		return step{name, 36, func(e *zerolog.Event) *zerolog.Event { return e.Uints64(k, []uint64{u64, 1}) }}
+	case "Floats32/stack":
+		return step{name, 40, func(e *zerolog.Event) *zerolog.Event { return e.Floats32(k, []float32{float32(f64), 1.5}) }}
+	case "Floats64/stack":
+		return step{name, 50, func(e *zerolog.Event) *zerolog.Event { return e.Floats64(k, []float64{f64, 1.5}) }}
+	case "Times/stack":
+		return step{name, 90, func(e *zerolog.Event) *zerolog.Event { return e.Times(k, []time.Time{t1, t2}) }}
+	case "Durs/stack":
+		return step{name, 60, func(e *zerolog.Event) *zerolog.Event { return e.Durs(k, []time.Duration{d, 2 * d}) }}
+	case "Str/stack":
+		if len(b) > 24 {
+			b = b[:24]
+		}
+		return step{name, 12 + len(b)*6, func(e *zerolog.Event) *zerolog.Event { return e.Str(k, string(b)) }}
+	case "RawJSON/stack":
+		return step{name, 30, func(e *zerolog.Event) *zerolog.Event {
+			a := [7]byte{'[', '1', ',', '2', ',', '3', ']'}
+			a[1] = '0' + byte(u64%10)
+			return e.RawJSON(k, a[:])
+		}}
+	case "Type/stack":
+		return step{name, 40, func(e *zerolog.Event) *zerolog.Event { return e.Type(k, o64{int(i64)}) }}
+	case "Dict/stack":
+		return step{name, 70, func(e *zerolog.Event) *zerolog.Event {
+			return e.Dict(k, zerolog.Dict().Ints("i", []int{int(i64), 2}).Strs("s", []string{"x", "y"}))
+		}}
+	case "Array/stack":
+		return step{name, 60, func(e *zerolog.Event) *zerolog.Event {
+			var a [4]byte
+			a[0] = byte(i64)
+			return e.Array(k, zerolog.Arr().Bytes(a[:]).Hex(a[:]).Str(string(a[:2])))
+		}}
 	}
 	panic("mkStep " + name)
 }
